@@ -12,6 +12,7 @@ import (
 	"strconv"
 	"strings"
 	"sync"
+	"sync/atomic"
 	"time"
 
 	shell_operator "github.com/flant/shell-operator/pkg/shell-operator"
@@ -28,6 +29,10 @@ const c14HookScript = `#!/usr/bin/env bash
 ctl="$(cd "$(dirname "$0")/.." && pwd)/ctl"
 me="$(basename "$0")"
 if [[ "$1" == "--config" ]]; then cat "$ctl/$me.cfg"; exit 0; fi
+wait_for() { local i; for ((i = 0; i < 1500; i++)); do [[ -e "$1" ]] && return 0; sleep 0.02; done; return 1; }
+# overlapping requests: the run is prepared (its files are written) and the process runs, but it has not
+# read its binding context yet — it tells the harness and waits to be let go
+if [[ -e "$ctl/sync/pregate" ]]; then tok="$ctl/sync/proc.$$.$(date +%s%N)"; : > "$tok.ready"; wait_for "$tok.go"; fi
 binding=$(jq -r '.[0].binding' "$BINDING_CONTEXT_PATH")
 uid=$(jq -r '.[0].review.request.uid' "$BINDING_CONTEXT_PATH")
 idx=$(grep -nxF -- "$binding" "$ctl/$me.names" | head -1 | cut -d: -f1)
@@ -35,7 +40,6 @@ echo "$me ${idx:-0} $uid" >> "$ctl/log"
 # what to do: per request (ctl/uid.<uid>.*) if scripted, else per binding (ctl/<hook>.<index>.*)
 base="$ctl/$me.$idx"
 if [[ -f "$ctl/uid.$uid.exit" ]]; then base="$ctl/uid.$uid"; fi
-wait_for() { local i; for ((i = 0; i < 1500; i++)); do [[ -e "$1" ]] && return 0; sleep 0.02; done; return 1; }
 # overlapping requests: the harness scripts the order of "writes its files" and "exits" with marker files
 if [[ -f "$base.gate" ]]; then : > "$ctl/sync/$uid.started"; wait_for "$ctl/sync/$uid.write"; fi
 if [[ -f "$base.resp" ]]; then cat "$base.resp" > "$VALIDATING_RESPONSE_PATH"; fi
@@ -232,24 +236,25 @@ type c14Req struct {
 
 // one step of a case: a single request, or several overlapping requests whose hook runs are
 // interleaved as Sched says: "h<i>" request i is sent and handed over by the hook manager (its task with
-// its binding context is built; the hook run has not begun — optional, "s<i>" alone does both),
-// "s<i>" its run is prepared and its hook process starts, "w<i>" its hook writes its output files,
+// its binding context is built; the hook run has not begun), "p<i>" its run is prepared (Hook.Run wrote
+// the run's files, the binding context file among them; the process waits in front of reading it) — both
+// optional, "s<i>" alone goes through them —, "s<i>" its hook process starts, "w<i>" its hook writes its output files,
 // "x<i>" its hook exits and the request is answered.
 type c14Step struct {
 	Reqs  []c14Req
 	Sched []string
 }
 
-// c14RandSched: a random interleaving of h<i> < s<i> < w<i> < x<i> for n requests
+// c14RandSched: a random interleaving of h<i> < p<i> < s<i> < w<i> < x<i> for n requests
 func c14RandSched(rng *Rng, n int) []string {
 	next := make([]int, n)
 	var out []string
-	for len(out) < 4*n {
+	for len(out) < 5*n {
 		i := rng.Intn(n)
-		if next[i] >= 4 {
+		if next[i] >= 5 {
 			continue
 		}
-		out = append(out, fmt.Sprintf("%c%d", "hswx"[next[i]], i+1))
+		out = append(out, fmt.Sprintf("%c%d", "hpswx"[next[i]], i+1))
 		next[i]++
 	}
 	return out
@@ -520,11 +525,35 @@ func c14RunSteps(r *Run, c *Case, hooks []c14Hook, steps []c14Step) {
 			n := len(st.Reqs)
 			done := make([]chan *httptest.ResponseRecorder, n)
 			arrive := make([]<-chan *verifsched.Arrival, n)
-			parked := make([]*verifsched.Arrival, n)
-			sent := make([]bool, n)
+			parkedT := make([]*verifsched.Arrival, n) // parked between HandleAdmissionEvent and taskHandler
+			parkedE := make([]string, n)              // its hook process waits at the gate in front of reading its binding context (token)
+			// 0 not sent · 1 handed over (task built) · 2 run prepared · 3 hook process started
+			stage := make([]int, n)
 			hookRuns := make([]bool, n)
 			stepDone := make(chan struct{})
 			key := func(i int) string { return "admission/" + st.Reqs[i].UID }
+			// the gate in front of every hook process of this step: the process announces itself (a token
+			// file) before it reads its binding context and waits to be let go
+			pregate := filepath.Join(syncDir, "pregate")
+			touch(pregate)
+			var execOpen atomic.Bool // true: let every process through
+			seenTok := map[string]bool{}
+			if old, _ := filepath.Glob(filepath.Join(syncDir, "proc.*.ready")); len(old) > 0 { // of earlier steps
+				for _, f := range old {
+					seenTok[f] = true
+				}
+			}
+			newTokens := func() []string {
+				m, _ := filepath.Glob(filepath.Join(syncDir, "proc.*.ready"))
+				var out []string
+				for _, f := range m {
+					if !seenTok[f] {
+						seenTok[f] = true
+						out = append(out, strings.TrimSuffix(f, ".ready"))
+					}
+				}
+				return out
+			}
 			logPath := filepath.Join(ctl, "log")
 			// the complete lines the hook processes of this step have logged so far
 			logNow := func() []string {
@@ -547,29 +576,41 @@ func c14RunSteps(r *Run, c *Case, hooks []c14Hook, steps []c14Step) {
 			// sends request i; park: its goroutine stops at the yield point between HandleAdmissionEvent
 			// (the task with its binding context is built) and taskHandler (the hook run)
 			launch := func(i int, park bool) {
-				sent[i] = true
 				if park {
 					arrive[i] = sched.Subscribe(key(i))
 				}
 				done[i] = make(chan *httptest.ResponseRecorder, 1)
 				go func(q c14Req, ch chan *httptest.ResponseRecorder) { ch <- send(q) }(st.Reqs[i], done[i])
 			}
-			// waits until cond holds ("ok"), request i is parked at the yield point (only when wantPark:
+			// waits until cond holds ("ok"), request i is parked at the yield point asked for (want 'T' / 'E':
 			// "parked") or request i is answered ("answered"); "" = timeout
-			await := func(i int, wantPark bool, cond func() bool) string {
+			await := func(i int, want byte, cond func() bool) string {
 				deadline := time.Now().Add(waitMax)
 				for time.Now().Before(deadline) {
 					if cond != nil && cond() {
 						return "ok"
 					}
-					if wantPark && parked[i] == nil && arrive[i] != nil {
+					if execOpen.Load() {
+						for _, tok := range newTokens() {
+							touch(tok + ".go")
+						}
+					}
+					if want == 'T' && arrive[i] != nil {
 						select {
-						case parked[i] = <-arrive[i]:
+						case parkedT[i] = <-arrive[i]:
+							return "parked"
 						default:
 						}
 					}
-					if wantPark && parked[i] != nil {
-						return "parked"
+					if want == 'E' {
+						// one request moves at a time: the process that gets here is the run of request i
+						if toks := newTokens(); len(toks) > 0 {
+							parkedE[i] = toks[0]
+							for _, t := range toks[1:] { // never expected: more than one process for one request
+								touch(t + ".go")
+							}
+							return "parked"
+						}
 					}
 					if recs[i] == nil && done[i] != nil {
 						select {
@@ -584,14 +625,12 @@ func c14RunSteps(r *Run, c *Case, hooks []c14Hook, steps []c14Step) {
 				}
 				return ""
 			}
-			// lets request i pass the yield point (now, or as soon as it gets there)
-			release := func(i int) {
-				if parked[i] != nil {
-					parked[i].Release()
-					parked[i] = nil
-					return
-				}
-				if arrive[i] != nil && recs[i] == nil {
+			// lets request i pass the first yield point (now, or as soon as it gets there)
+			releaseT := func(i int) {
+				if parkedT[i] != nil {
+					parkedT[i].Release()
+					parkedT[i] = nil
+				} else if arrive[i] != nil && recs[i] == nil {
 					go func(ch <-chan *verifsched.Arrival) {
 						select {
 						case a := <-ch:
@@ -599,25 +638,82 @@ func c14RunSteps(r *Run, c *Case, hooks []c14Hook, steps []c14Step) {
 						case <-stepDone:
 						}
 					}(arrive[i])
-					arrive[i] = nil
 				}
+				arrive[i] = nil
 			}
-			// releases every gate of the step and collects the answers
+			// opens every gate of the step and collects the answers
 			finishAll := func() {
+				execOpen.Store(true)
+				_ = os.Remove(pregate)
 				for _, q := range st.Reqs {
 					touch(filepath.Join(syncDir, q.UID+".write"))
 					touch(filepath.Join(syncDir, q.UID+".go"))
 				}
 				for i := range st.Reqs {
-					if !sent[i] {
+					if parkedE[i] != "" {
+						touch(parkedE[i] + ".go")
+						parkedE[i] = ""
+					}
+					if stage[i] == 0 && done[i] == nil {
 						launch(i, false)
 					} else {
-						release(i)
+						releaseT(i)
 					}
 				}
 				for i := range st.Reqs {
-					await(i, false, nil)
+					await(i, 0, nil)
 				}
+			}
+			// what the hook process started for request i found in its binding context (from its log line)
+			type found struct {
+				hid       int
+				name, uid string
+			}
+			var got found
+			// moves request i forward to the stage asked for: "ok" (reached), "answered" (the request was
+			// answered on the way), "" (a yield point / marker did not show up in time)
+			advance := func(i, to int) string {
+				for stage[i] < to {
+					if recs[i] != nil {
+						return "answered"
+					}
+					var r string
+					switch stage[i] {
+					case 0:
+						launch(i, true)
+						r = await(i, 'T', nil)
+					case 1:
+						releaseT(i)
+						r = await(i, 'E', nil)
+					case 2:
+						before := logSeen
+						if parkedE[i] != "" {
+							touch(parkedE[i] + ".go")
+							parkedE[i] = ""
+						}
+						r = await(i, 0, func() bool { return len(logNow()) > before })
+						if r == "ok" {
+							// exactly one request was let go: the new log line is its hook process
+							lines := logNow()
+							f := strings.Fields(lines[before])
+							logSeen = len(lines)
+							procIdx[i] = before
+							got = found{-1, "?", "?"}
+							if len(f) >= 3 {
+								idx, _ := strconv.Atoi(f[1])
+								got.hid, got.name = nameOf(f[0], idx)
+								got.uid = f[2]
+							}
+						}
+					}
+					switch r {
+					case "parked", "ok":
+						stage[i]++
+					default:
+						return r
+					}
+				}
+				return "ok"
 			}
 			stuck, deviated := "", false
 			for _, ev := range st.Sched {
@@ -626,46 +722,29 @@ func c14RunSteps(r *Run, c *Case, hooks []c14Hook, steps []c14Step) {
 				q := st.Reqs[i]
 				sy := filepath.Join(syncDir, q.UID)
 				switch ev[0] {
-				case 'h':
-					launch(i, true)
-					switch await(i, true, nil) {
-					case "parked":
-						c.Op(fmt.Sprintf("ov hand %s path=%s", c14Enc(q.UID), c14Enc(q.Path)), "handed")
+				case 'h', 'p':
+					to, line, yes := 1, "ov hand", "handed"
+					if ev[0] == 'p' {
+						to, line, yes = 2, "ov prep", "prepared"
+					}
+					line = fmt.Sprintf("%s %s path=%s", line, c14Enc(q.UID), c14Enc(q.Path))
+					switch advance(i, to) {
+					case "ok":
+						c.Op(line, yes)
 					case "answered":
-						c.Op(fmt.Sprintf("ov hand %s path=%s", c14Enc(q.UID), c14Enc(q.Path)), "answered")
+						c.Op(line, "answered")
 					default:
 						stuck = ev
 					}
 				case 's':
 					startLine := fmt.Sprintf("ov start %s path=%s", c14Enc(q.UID), c14Enc(q.Path))
-					if !sent[i] {
-						launch(i, true)
-						if await(i, true, nil) == "" {
-							stuck = ev
-							break
-						}
-					}
-					if recs[i] != nil {
-						c.Op(startLine, "answered")
+					if stage[i] >= 3 {
 						break
 					}
-					before := logSeen
-					release(i)
-					switch await(i, false, func() bool { return len(logNow()) > before }) {
+					switch advance(i, 3) {
 					case "ok":
-						// exactly one request was let go: the new log line is its hook process
-						lines := logNow()
-						f := strings.Fields(lines[before])
-						logSeen = len(lines)
-						procIdx[i] = before
-						hid, name, guid := -1, "?", "?"
-						if len(f) >= 3 {
-							idx, _ := strconv.Atoi(f[1])
-							hid, name = nameOf(f[0], idx)
-							guid = f[2]
-						}
-						if guid == q.UID {
-							if await(i, false, func() bool { return exists(sy + ".started") }) == "" {
+						if got.uid == q.UID {
+							if await(i, 0, func() bool { return exists(sy + ".started") }) == "" {
 								stuck = ev
 								break
 							}
@@ -675,7 +754,7 @@ func c14RunSteps(r *Run, c *Case, hooks []c14Hook, steps []c14Step) {
 							c.Op(startLine, "handed-another-request")
 							deviated = true
 						}
-						c.Oracle(fmt.Sprintf("handed path=%s uid=%s ghook=%d gbinding=%s guid=%s", c14Enc(q.Path), c14Enc(q.UID), hid, c14Enc(name), c14Enc(guid)))
+						c.Oracle(fmt.Sprintf("handed path=%s uid=%s ghook=%d gbinding=%s guid=%s", c14Enc(q.Path), c14Enc(q.UID), got.hid, c14Enc(got.name), c14Enc(got.uid)))
 					case "answered":
 						c.Op(startLine, "answered")
 					default:
@@ -683,13 +762,13 @@ func c14RunSteps(r *Run, c *Case, hooks []c14Hook, steps []c14Step) {
 					}
 				case 'w':
 					touch(sy + ".write")
-					if hookRuns[i] && await(i, false, func() bool { return exists(sy + ".wrote") }) == "" {
+					if hookRuns[i] && await(i, 0, func() bool { return exists(sy + ".wrote") }) == "" {
 						stuck = ev
 					}
 					c.Op("ov write "+c14Enc(q.UID), "ok")
 				case 'x':
 					touch(sy + ".go")
-					if await(i, false, nil) == "" {
+					if await(i, 0, nil) == "" {
 						stuck = ev
 					}
 					c.Op("ov exit "+c14Enc(q.UID), "ok")
@@ -705,9 +784,10 @@ func c14RunSteps(r *Run, c *Case, hooks []c14Hook, steps []c14Step) {
 			for i := range st.Reqs {
 				sched.Unsubscribe(key(i))
 			}
+			_ = os.Remove(pregate)
 			close(stepDone)
 			if stuck != "" {
-				c.Inconcl = "the scripted interleaving got stuck at " + stuck + " (a marker did not appear in time)"
+				c.Inconcl = "the scripted interleaving got stuck at " + stuck + " (a yield point was not reached or a marker did not appear in time)"
 				return
 			}
 			if deviated {
@@ -785,7 +865,7 @@ func c14Variant(rng *Rng, p string) string {
 }
 
 func runC14(r *Run) {
-	r.Rule = "1-3 hooks with 1-3 validating/mutating bindings each (fully qualified names for validating; arbitrary names for mutating: upper case, blanks, slashes, empty path segments, non-ASCII; names whose SafeURL forms collide within and across hooks), a scripted outcome per (hook, binding): exit code x response file (empty, not JSON, truncated, wrong types, bad base64, JSON followed by garbage, two documents, {}, null, unknown fields, allowed/denied with message/warnings/base64 JSONPatch); 3-6 requests per case: registered paths and variants (trailing/double slashes, upper case, other configuration id, prefix/suffix changes, unknown, /, /hooks), bodies valid / garbage / without request. A run may also leave metric / object patch operation files behind (a valid metric operation; a metrics file that is not JSON; a metric operation that does not validate; an unknown object patch operation; an unparsable object patch file) — all but the first make the hook task fail after a clean exit. Overlap cases: 2-4 requests in flight at the same time (mostly to the same hook and binding, also to other bindings of the same hook and to other hooks, each with its own uid and its own scripted outcome), the order of \"handed over by the hook manager (task and binding context built, hook run not begun) / run prepared and hook process started / hook writes its files / hook exits\" over all of them chosen at random and forced with a yield point in the event closure (verifsched admission.taskBuilt) and marker files; every hook process is checked against the request it was started for (which request uid, which hook and binding it found in its binding context), every answer against its own request. Everything runs through the real chain: chi router of the admission WebhookHandler (httptest) -> the event closure of initValidatingWebhookManager -> HookManager routing -> taskHandler -> Hook.Run -> bash -> response file -> AdmissionReview. Plus differential lines for SafeURLString and detectConfigurationAndWebhook on random strings. A case is non-trivial when a hook process ran; distinct = distinct op-line sequences."
+	r.Rule = "1-3 hooks with 1-3 validating/mutating bindings each (fully qualified names for validating; arbitrary names for mutating: upper case, blanks, slashes, empty path segments, non-ASCII; names whose SafeURL forms collide within and across hooks), a scripted outcome per (hook, binding): exit code x response file (empty, not JSON, truncated, wrong types, bad base64, JSON followed by garbage, two documents, {}, null, unknown fields, allowed/denied with message/warnings/base64 JSONPatch); 3-6 requests per case: registered paths and variants (trailing/double slashes, upper case, other configuration id, prefix/suffix changes, unknown, /, /hooks), bodies valid / garbage / without request. A run may also leave metric / object patch operation files behind (a valid metric operation; a metrics file that is not JSON; a metric operation that does not validate; an unknown object patch operation; an unparsable object patch file) — all but the first make the hook task fail after a clean exit. Overlap cases: 2-4 requests in flight at the same time (mostly to the same hook and binding, also to other bindings of the same hook and to other hooks, each with its own uid and its own scripted outcome), the order of \"handed over by the hook manager (task and binding context built, hook run not begun) / run prepared (Hook.Run wrote the binding context file and the other files, process not started) / hook process started / hook writes its files / hook exits\" over all of them chosen at random and forced with a yield point in the event closure (verifsched admission.taskBuilt), a gate at the very start of the hook process (before it reads its binding context) and marker files; every hook process is checked against the request it was started for (which request uid, which hook and binding it found in its binding context), every answer against its own request. Everything runs through the real chain: chi router of the admission WebhookHandler (httptest) -> the event closure of initValidatingWebhookManager -> HookManager routing -> taskHandler -> Hook.Run -> bash -> response file -> AdmissionReview. Plus differential lines for SafeURLString and detectConfigurationAndWebhook on random strings. A case is non-trivial when a hook process ran; distinct = distinct op-line sequences."
 	c14SharedHook(r)
 
 	// ---- corpus
@@ -886,6 +966,8 @@ func runC14(r *Run) {
 		g, m, o := "/hooks/gate-example-com", "/hooks/mut-gate", "/hooks/other-example-com"
 		c14RunSteps(r, c, []c14Hook{h1, h2}, []c14Step{
 			{Reqs: []c14Req{{g, "ok", "hd-A", deny("A")}, {g, "ok", "hd-B", allow("B")}}, Sched: []string{"h1", "h2", "s1", "s2", "w1", "w2", "x1", "x2"}},
+			{Reqs: []c14Req{{g, "ok", "hd-J", allow("J")}, {g, "ok", "hd-K", deny("K")}}, Sched: []string{"h1", "p1", "h2", "p2", "s1", "s2", "w2", "w1", "x2", "x1"}},
+			{Reqs: []c14Req{{g, "ok", "hd-L", deny("L")}, {m, "ok", "hd-M", allow("M")}, {g, "ok", "hd-N", allow("N")}}, Sched: []string{"h1", "h2", "p2", "h3", "p3", "p1", "s3", "s1", "s2", "w1", "w2", "w3", "x3", "x2", "x1"}},
 			{Reqs: []c14Req{{g, "ok", "hd-C", allow("C")}, {g, "ok", "hd-D", deny("D")}}, Sched: []string{"h2", "h1", "s2", "w2", "x2", "s1", "w1", "x1"}},
 			{Reqs: []c14Req{{g, "ok", "hd-E", deny("E")}, {m, "ok", "hd-F", allow("F")}, {g, "ok", "hd-G", allow("G")}, {o, "ok", "hd-H", deny("H")}},
 				Sched: []string{"h1", "h2", "h3", "h4", "s4", "s3", "s2", "s1", "w1", "w2", "w3", "w4", "x4", "x1", "x3", "x2"}},
